@@ -556,6 +556,79 @@ def gen_srvrep_manysyms(rng, tier):
         out.append("%d manysyms %s %s" % (nreps, " ".join("F:%s:%s" % (hx(f), hx(c)) for f, c in files), " ".join(steps)))
     return out
 
+def gen_srvrep_bigtable(rng, tier):
+    """hover and completion detail of a variable bound to a table with MORE members than are displayed
+    (PreviewFieldsNum = 30 shown, the rest folded into `...(+N)`): 33..60 members whose values are of different kinds
+    (numbers, strings, booleans, tables, functions, other variables, calls), trailing comments, members added by later
+    assignments and from another file, and a `---@class` with more than 32 fields; the same hover asked several times
+    of the same server and of fresh servers; which fields are shown and the type / value / comment shown for each is
+    a function of the workspace (seeded/C09-5 resolved only the first 31 members in map order)"""
+    n = {"quick": 8, "thorough": 200, "search": 4}[tier]
+    nreps = {"quick": 5, "thorough": 8, "search": 4}[tier]
+    out = []
+    for _ in range(n):
+        nm = rng.randrange(33, 61)
+        stem = rng.choice(["field", "k", "opt_", "m"])
+        names = ["%s%02d" % (stem, i) for i in range(nm)]
+        if rng.random() < 0.5:
+            names = ["".join(rng.choice("abcdefghijklmnopqrstuvwxyz") for _ in range(rng.randrange(1, 9))) + "%d" % i for i in range(nm)]
+        rng.shuffle(names)
+
+        def value(i):
+            k = rng.randrange(9)
+            return [str(i), "%d.5" % i, '"s%d"' % i, rng.choice(["true", "false"]), "{ x = %d }" % i, "{}", "function(a, b) return a end",
+                    "other", "gfun(%d)" % i][k]
+        in_ctor = rng.randrange(0, nm + 1) if rng.random() < 0.4 else nm
+        u = ["local other = 7", "local big = {"]
+        for i, nme in enumerate(names[:in_ctor]):
+            u.append("\t%s = %s,%s" % (nme, value(i), rng.choice(["", " -- note%02d" % i, " --- doc %d" % i, " -- %s" % ("x" * rng.randrange(1, 30))])))
+        u.append("}")
+        lib = ["function gfun(a) return a end"]
+        for i, nme in enumerate(names[in_ctor:]):
+            j = in_ctor + i
+            u.append("big.%s = %s%s" % (nme, value(j), rng.choice(["", " -- late%02d" % j])))
+        glob = rng.random() < 0.5
+        if glob:                                       # a global table, members added by the other file too
+            u[1] = "big = {"
+            for i in range(rng.randrange(1, 6)):
+                lib.append("big.libm%d = %s -- from lib" % (i, value(i)))
+        hov = []
+        u.append("print(big)")
+        hov.append((len(u) - 1, 7))
+        u.append("local alias = big")
+        hov.append((len(u) - 1, 7))
+        u.append("print(big.)")
+        comp = (len(u) - 1, 10)
+        u.append("print(bi)")
+        comp2 = (len(u) - 1, 8)
+        # a class with more fields than are displayed
+        nf = rng.randrange(33, 50)
+        cl = ["---@class BigC"] + ["---@field f%02d %s%s" % (i, rng.choice(FTYPES), rng.choice(["", " @c%d" % i])) for i in range(nf)] + ["local BigC = {}"]
+        if rng.random() < 0.5:
+            cl += ["function BigC:m%d() end" % i for i in range(rng.randrange(1, 5))]
+        cfile = rng.choice(["q/use.lua", "lib/cls.lua"])
+        u += ["---@type BigC", "local vc", "print(vc)"]
+        hov.append((len(u) - 1, 7))
+        hov.append((len(u) - 2, 6))
+        srcs = {"q/use.lua": u, "lib/l.lua": lib}
+        if cfile == "q/use.lua":
+            srcs["q/use.lua"] = cl + u
+            off = len(cl)
+        else:
+            srcs[cfile] = cl
+            off = 0
+        fl = list(srcs)
+        rng.shuffle(fl)
+        ui = fl.index("q/use.lua")
+        steps = ["S:open:%d" % ui]
+        for rep in range(3):
+            for ln, col in hov:
+                steps.append("S:hover:%d:%d:%d" % (ui, ln + off, col))
+        steps += ["S:resolve:%d:%d:%d:%s" % (ui, comp2[0] + off, comp2[1], hx("big")), "S:complete:%d:%d:%d" % (ui, comp[0] + off, comp[1]),
+                  "S:resolve:%d:%d:%d:%s" % (ui, comp2[0] + off, comp2[1], hx("big")), "S:diags"]
+        out.append("%d bigtable %s %s" % (nreps, " ".join("F:%s:%s" % (hx(f), hx("\n".join(srcs[f]) + "\n")) for f in fl), " ".join(steps)))
+    return out
+
 
 LEGS = [
     Leg("c09.merge", gen_merge, shrink=shrink_items, nontrivial=merge_nontrivial, describe=merge_describe),
@@ -564,7 +637,7 @@ LEGS = [
     Leg("c09.bestmatch", gen_bestmatch, shrink=shrink_bestmatch, describe=bm_describe, per_case_s=0.2,
         nontrivial=lambda c: len(c.split(" ")[2].split(",")) >= 2),
     Leg("c09.project", gen_project, describe=project_describe, per_case_s=20, jobs=6),
-    Leg("c09.srvrep", lambda rng, tier: gen_srvrep(rng, tier) + gen_srvrep_project(rng, tier) + gen_srvrep_manysyms(rng, tier), describe=srvrep_describe,
+    Leg("c09.srvrep", lambda rng, tier: gen_srvrep(rng, tier) + gen_srvrep_project(rng, tier) + gen_srvrep_manysyms(rng, tier) + gen_srvrep_bigtable(rng, tier), describe=srvrep_describe,
         per_case_s=20, jobs=6, nontrivial=lambda c: True),
     Leg("c09.projtable", gen_projtable, describe=projtable_describe, per_case_s=20, jobs=6,
         nontrivial=lambda c: True),
